@@ -154,8 +154,10 @@ class MemoryStore(Store):
 
 class LocalFileStore(Store):
     def __init__(self, internal_dir: str, data_dir: str, create_dirs: bool = True):
-        self._root = internal_dir
-        self._data_root = data_dir
+        # Resolved once, against the working directory at this point: the links of the data directory point to
+        # the blobs by absolute path, and the store must keep working when the working directory changes.
+        self._root = os.path.abspath(internal_dir)
+        self._data_root = os.path.abspath(data_dir)
         if not os.path.isdir(internal_dir):
             if create_dirs:
                 _logger.debug(f"Creating dir {internal_dir}")
